@@ -73,7 +73,7 @@ func NewRolloutScn(c *vs.Case, o RolloutOpts) *Scn {
 	if o.Small {
 		s.Prog.StatusMode = 1
 	} else {
-		s.Prog.StatusMode = []int{1, 2, 3}[c.Int(3)]
+		s.Prog.StatusMode = []int{1, 2, 3, 0}[c.Int(4)]
 		if c.Prob(1, 4) {
 			// a second, non-rolling kind next to the rolling one
 			s.Cfg.Children = append(s.Cfg.Children, ChildCfg{Resource: "configmaps", Method: c.PickStr("InPlace", "OnDelete", "Recreate")})
